@@ -1,7 +1,7 @@
 // @common
     use crate::verif_ref::{base, spec_tile_id};
 
-// @h id=H7.2-z$z prop=C07 rep="z:0-31" quick="0-19" cap=1200 mem=8 unwind=34 bounds="zoom $z fixed, every x,y < 2^$z symbolic (full grid of the zoom)"
+// @h id=H7.2-z$z prop=C07 rep="z:0-31" quick="0-16" cap=1200 mem=8 unwind=34 bounds="zoom $z fixed, every x,y < 2^$z symbolic (full grid of the zoom)"
     /// tile_id equals the specification's algorithm (rotate/flip loop) on the whole grid of one zoom, and lies in the zoom's block.
     #[kani::proof]
     fn h7_2_spec_z$z() {
@@ -36,7 +36,7 @@
         kani::cover!(z == lo && x == 0 && y == (1u64 << z) - 1);
     }
 
-// @h id=H7.3-b$b prop=C07,C08 rep="b:0-6" quick="0-6" cap=1500 mem=8 unwind=34 checks=std bounds="id band $b of the u64 id space: ids of zooms {0-12,13-20,21-25,26-28,29-30,31} and band 6 = every id >= first id of zoom 32 up to u64::MAX; the seven bands together are every u64"
+// @h id=H7.3-b$b prop=C07,C08 rep="b:0-6" quick="0-6" quick_C08="5-6" cap=1500 mem=8 unwind=34 checks=std bounds="id band $b of the u64 id space: ids of zooms {0-12,13-20,21-25,26-28,29-30,31} and band 6 = every id >= first id of zoom 32 up to u64::MAX; the seven bands together are every u64"
     /// every id below the first id of zoom 32 converts back and re-encodes to itself; every larger id is an error; never a panic.
     #[kani::proof]
     fn h7_3_zxy_total_b$b() {
@@ -64,7 +64,7 @@
         kani::cover!($b == 6 || id + 1 == base(EDGES[$b + 1]));
     }
 
-// @h id=H7.5-z$z prop=C07 rep="z:1-31" quick="1-4" cap=900 mem=8 unwind=34 bounds="zoom $z fixed; every pair of consecutive ids inside the zoom"
+// @h id=H7.5-z$z prop=C07 rep="z:1-31" quick="1-3" cap=900 mem=8 unwind=34 bounds="zoom $z fixed; every pair of consecutive ids inside the zoom"
     /// consecutive ids within a zoom are edge-adjacent tiles
     #[kani::proof]
     fn h7_5_adjacent_z$z() {
@@ -81,7 +81,7 @@
         kani::cover!(d + 2 == (1u64 << (2 * z as u32)));
     }
 
-// @h id=H7.6-z$z prop=C07 rep="z:0-30" quick="0-30" cap=900 mem=8 unwind=34 bounds="parent zoom $z fixed; every parent x,y < 2^$z and all four children"
+// @h id=H7.6-z$z prop=C07 rep="z:0-30" quick="0,1,5,10,15,20,25,30" cap=900 mem=8 unwind=34 bounds="parent zoom $z fixed; every parent x,y < 2^$z and all four children"
     /// a tile's four children occupy the aligned block of four positions below the parent's position
     #[kani::proof]
     fn h7_6_children_z$z() {
